@@ -6,12 +6,12 @@ From NTRIP Require Import Base Queue QueueProofs.
 From NTRIP Require Writers ConcQueue.
 Local Open Scope nat_scope.
 
-(* k = 2 writers, two messages, latency 1, capacity 1: a complete run; main has returned and both writers hold both messages *)
+(* k = 2 writers on unbuffered channels, two messages, latency 1: a complete run; main has returned and both writers hold both messages *)
 Example writers_example :
-  exists c, Writers.reach nat 1 (fun _ => 1) (Writers.init nat (Writers.std_prog nat 2 [7; 8])) c /\
+  exists c, Writers.reach nat 1 (fun _ => 1) (Writers.init nat (Writers.std_prog nat (fun _ => true) 2 [7; 8])) c /\
             Writers.returned nat c = true /\ Writers.wrote nat c 0 = [7; 8] /\ Writers.wrote nat c 1 = [7; 8].
 Proof.
-  pose proof (Writers.r_refl nat 1 (fun _ => 1) (Writers.init nat (Writers.std_prog nat 2 [7; 8]))) as R.
+  pose proof (Writers.r_refl nat 1 (fun _ => 1) (Writers.init nat (Writers.std_prog nat (fun _ => true) 2 [7; 8]))) as R.
   Ltac nrm R := cbv beta iota delta [Writers.ops Writers.w Writers.buf Writers.closed Writers.done Writers.wrote Writers.returned Writers.waited] in R.
   Ltac wsend R i x := let R' := fresh "Rn" in match type of R with Writers.reach _ _ _ _ ?c =>
     pose proof (Writers.r_step nat 1 (fun _ => 1) _ c _ R (Writers.s_send nat 1 (fun _ => 1) c i x _ eq_refl eq_refl ltac:(cbn; lia))) as R' end; clear R; rename R' into R; nrm R.
@@ -29,12 +29,16 @@ Proof.
     pose proof (Writers.r_step nat 1 (fun _ => 1) _ c _ R (Writers.s_done nat 1 (fun _ => 1) c i eq_refl)) as R' end; clear R; rename R' into R; nrm R.
   Ltac wwait R i := let R' := fresh "Rn" in match type of R with Writers.reach _ _ _ _ ?c =>
     pose proof (Writers.r_step nat 1 (fun _ => 1) _ c _ R (Writers.s_wait nat 1 (fun _ => 1) c i _ eq_refl eq_refl)) as R' end; clear R; rename R' into R; nrm R.
+  Ltac wawait R i := let R' := fresh "Rn" in match type of R with Writers.reach _ _ _ _ ?c =>
+    pose proof (Writers.r_step nat 1 (fun _ => 1) _ c _ R (Writers.s_await nat 1 (fun _ => 1) c i _ eq_refl eq_refl)) as R' end; clear R; rename R' into R; nrm R.
   Ltac wret R := let R' := fresh "Rn" in match type of R with Writers.reach _ _ _ _ ?c =>
     pose proof (Writers.r_step nat 1 (fun _ => 1) _ c _ R (Writers.s_ret nat 1 (fun _ => 1) c _ eq_refl)) as R' end; clear R; rename R' into R; nrm R.
-  wsend R 0 7. wrecv R 0 7. wsend R 1 7. wrecv R 1 7. wtick R 0 7. wwrite R 0 7. wtick R 1 7. wwrite R 1 7.
-  wsend R 0 8. wsend R 1 8. wclose R 0. wclose R 1.
-  wrecv R 0 8. wtick R 0 8. wwrite R 0 8. weof R 0. wdone R 0.
-  wrecv R 1 8. wtick R 1 8. wwrite R 1 8. weof R 1. wdone R 1.
+  wsend R 0 7. wrecv R 0 7. wawait R 0. wsend R 1 7. wrecv R 1 7. wawait R 1.
+  wtick R 0 7. wwrite R 0 7. wtick R 1 7. wwrite R 1 7.
+  wsend R 0 8. wrecv R 0 8. wawait R 0. wsend R 1 8. wrecv R 1 8. wawait R 1.
+  wclose R 0. wclose R 1.
+  wtick R 0 8. wwrite R 0 8. weof R 0. wdone R 0.
+  wtick R 1 8. wwrite R 1 8. weof R 1. wdone R 1.
   wwait R 0. wwait R 1. wret R.
   eexists. split; [exact R|]. repeat split; vm_compute; reflexivity.
 Qed.
